@@ -41,10 +41,10 @@ fn main() {
             match e {
                 Ev::Assume { ok } => writeln!(out, "ASSUME {}", *ok as u8).unwrap(),
                 Ev::AssumeEq { a, b } => writeln!(out, "ASSUMEEQ {} | {}", shows(a), shows(b)).unwrap(),
-                Ev::Assert { id, ok } => writeln!(out, "ASSERT {} {}", id, *ok as u8).unwrap(),
-                Ev::AssertEq { id, a, b } => writeln!(out, "ASSERTEQ {} {} | {}", id, shows(a), shows(b)).unwrap(),
-                Ev::Cover { id } => writeln!(out, "COVER {}", id).unwrap(),
-                Ev::Out { id, v } => writeln!(out, "OUT {} {}", id, shows(v)).unwrap(),
+                Ev::Assert { id, ok } => writeln!(out, "ASSERT {} {}", id.replace(' ', "_"), *ok as u8).unwrap(),
+                Ev::AssertEq { id, a, b } => writeln!(out, "ASSERTEQ {} {} | {}", id.replace(' ', "_"), shows(a), shows(b)).unwrap(),
+                Ev::Cover { id } => writeln!(out, "COVER {}", id.replace(' ', "_")).unwrap(),
+                Ev::Out { id, v } => writeln!(out, "OUT {} {}", id.replace(' ', "_"), shows(v)).unwrap(),
             }
         });
         if r.is_err() { writeln!(out, "PANIC").unwrap(); }
